@@ -1308,15 +1308,34 @@ func (c *fc) loopState(body *ast.BlockStmt, extra []ast.Node, also []*types.Var,
 	return out
 }
 
-func containsReturn(n ast.Node) bool {
+// canLeave reports whether code inside the loop statement can leave the
+// function directly (value mode): a return, an explicit panic, or running out
+// of fuel in a nested general loop or in a call to a fuelled function.
+func (c *fc) canLeave(loop ast.Node) bool {
 	found := false
-	ast.Inspect(n, func(n ast.Node) bool {
-		if _, ok := n.(*ast.ReturnStmt); ok {
-			found = true
+	ast.Inspect(loop, func(n ast.Node) bool {
+		if found {
+			return false
 		}
-		if ce, ok := n.(*ast.CallExpr); ok {
-			if id, ok := ce.Fun.(*ast.Ident); ok && id.Name == "panic" {
-				found = true
+		switch x := n.(type) {
+		case *ast.ReturnStmt:
+			found = true
+		case *ast.ForStmt:
+			if x != loop {
+				if _, counted := c.t.classifyFor(x); !counted {
+					found = true
+				}
+			}
+		case *ast.CallExpr:
+			switch o := c.t.calleeObj(x).(type) {
+			case *types.Builtin:
+				if o.Name() == "panic" {
+					found = true
+				}
+			case *types.Func:
+				if g := c.t.byObj[o]; g != nil && (g.fuelled || g == c.f) {
+					found = true
+				}
 			}
 		}
 		return !found
@@ -1423,11 +1442,11 @@ func (lg *loopGen) after(loopApp string, rest func() string, cx *ctx) string {
 	}
 }
 
-func (c *fc) loopMayRet(body ast.Node) bool {
-	if c.mode == ModeOk || c.f.fuelled {
-		return true
+func (c *fc) loopMayRet(loop ast.Node) bool {
+	if c.mode == ModeOk {
+		return true // any guard failure leaves the function with false
 	}
-	return containsReturn(body)
+	return c.canLeave(loop)
 }
 
 func (c *fc) forStmt(s *ast.ForStmt, rest func() string, cx *ctx) string {
